@@ -1,5 +1,5 @@
 from .. import facts
-from ..rules import factors, codec, image
+from ..rules import factors, codec, image, status
 
 
 def run(ck):
@@ -25,3 +25,4 @@ def run(ck):
     codec.r11_yuy2_siblings(ck, P)
     codec.r12_simd_helpers(ck, P)
     image.r_hook_refreshes_unconditionally(ck, P, 'C10-R13')
+    status.r19_13_shortcut_needs_plain_destination(ck, P, 'C10-R14')   # accessor equivalence: a raw shortcut bypasses read_func / write_func
